@@ -1,6 +1,8 @@
 package main
 
 import (
+	"net/http/httptest"
+	"bytes"
 	"context"
 	"fmt"
 	"sort"
@@ -65,6 +67,69 @@ func suiteC15(r *Run) {
 		return d
 	}
 
+	// a refused registration leaves no trace: afterwards the name can still be registered properly, and (HTTP) its
+	// method paths are not routed
+	for _, carrier := range []string{"handlermap", "inproc", "http"} {
+		for variant := 0; variant < 2; variant++ {
+			var reg regCarrier
+			var hsrv *httpgrpc.Server
+			switch carrier {
+			case "handlermap":
+				reg = grpchan.HandlerMap{}
+			case "inproc":
+				reg = &inprocgrpc.Channel{}
+			case "http":
+				hsrv = httpgrpc.NewServer()
+				reg = hsrv
+			}
+			d := mkDesc(9000+variant, "a.A")
+			d.HandlerType = (*synthHandler)(nil)
+			if len(d.Methods) == 0 {
+				d.Methods = append(d.Methods, grpc.MethodDesc{MethodName: "U0", Handler: func(srv interface{}, ctx context.Context, dec func(interface{}) error, i grpc.UnaryServerInterceptor) (interface{}, error) {
+					return &Msg{}, nil
+				}})
+			}
+			var bad interface{} = notImpl{}
+			if variant == 1 {
+				// refused as a duplicate: the second description has one more method
+				reg.RegisterService(d, synthImpl{})
+			}
+			d2 := *d
+			if variant == 1 {
+				d2.Methods = append(append([]grpc.MethodDesc{}, d.Methods...), grpc.MethodDesc{MethodName: "Extra", Handler: d.Methods[0].Handler})
+				bad = synthImpl{}
+			}
+			pan := ""
+			func() { defer recoverTo(&pan); reg.RegisterService(&d2, bad) }()
+			c := map[string]interface{}{"carrier": carrier, "history": map[int]string{0: "ill-typed registration, then a valid one of the same name", 1: "registration, then a duplicate with an extra method"}[variant]}
+			r.Eval(fmt.Sprint("refused-leaves-no-trace", carrier, variant), true)
+			r.Count("directed:refused-registration")
+			if pan == "" {
+				r.Violate("registry/"+carrier+"/refusal-wrong", "registering a second handler for a name, or a handler that does not implement the service's interface, is refused by panicking", "the registration was accepted", c, "ok")
+				continue
+			}
+			if hsrv != nil {
+				// the refused description's method paths must not be served by it
+				path := "/a.A/" + d2.Methods[len(d2.Methods)-1].MethodName
+				req := httptest.NewRequest("POST", "http://x.test"+path, bytes.NewReader(nil))
+				req.Header.Set("Content-Type", httpgrpc.UnaryRpcContentType_V1)
+				rec := httptest.NewRecorder()
+				func() { defer recoverTo(&pan); hsrv.ServeHTTP(rec, req) }()
+				if rec.Code != 404 {
+					r.Violate("registry/http/refused-registration-left-routes", "a refused registration leaves the registry as it was", sprintf("after the refused registration POST %s is answered %d (want 404)", path, rec.Code), c, fmt.Sprint(rec.Code))
+				}
+			}
+			if variant == 0 {
+				pan2 := ""
+				func() { defer recoverTo(&pan2); reg.RegisterService(d, synthImpl{}) }()
+				if pan2 != "" {
+					r.Violate("registry/"+carrier+"/valid-registration-refused-after-refusal", "a refused registration leaves the registry as it was", sprintf("a valid registration of the same name after the refused one panicked: %s", trunc(pan2, 120)), c, "panic")
+				} else if _, ok := reg.GetServiceInfo()["a.A"]; !ok {
+					r.Violate("registry/"+carrier+"/info-unfaithful", "the reported service info lists the registered services", "a.A missing after the valid registration", c, "")
+				}
+			}
+		}
+	}
 	for iter := 0; iter < r.Budget(150, 6000); iter++ {
 		carrier := []string{"handlermap", "inproc", "http"}[iter%3]
 		var reg regCarrier
